@@ -100,10 +100,16 @@ def check(repo, res, tier):
         X = Affine()
         k = None
         node_aft = None
+        lenv = {}
         for e in p.events:
             if e.kind != 'stmt':
                 continue
             n = e.node
+            if isinstance(n, ast.Assign) and len(n.targets) == 1 and isinstance(n.targets[0], ast.Name):
+                nm_ = n.targets[0].id
+                if sum(1 for x in walk_no_nested(d.node) if isinstance(x, ast.Assign) and any(
+                        isinstance(t, ast.Name) and t.id == nm_ for t in x.targets)) > 1:
+                    lenv[nm_] = affine(canon, n.value, dfr, lenv)
             if isinstance(n, ast.Assign) and len(n.targets) == 1 and canon.c(n.targets[0], dfr) == 'Task.ast':
                 if canon.c(n.value, dfr) != 'env.now':
                     res.bad('C06.W2', d, n, short(ast.unparse(n)), 'the recorded start is not the current time')
@@ -115,7 +121,7 @@ def check(repo, res, tier):
                 if isinstance(y, ast.Yield) and started and k is None:
                     v = y.value
                     if isinstance(v, ast.Call) and call_name(v) == 'timeout' and v.args:
-                        X = X + affine(canon, v.args[0], dfr)
+                        X = X + affine(canon, v.args[0], dfr, lenv or None)
                     else:
                         raise AnalysisError('do_work waits on %s, which the time-effect rule cannot sum' % (
                             ast.unparse(y)))
